@@ -13,6 +13,24 @@ CLAIMED["C01"] = dict(
     note=TRUST_COMMON + "Assumed contracts: numpy.flatnonzero, numpy.stack, numpy.empty, Generator.uniform range. "
          "Progeny counters below 10^7 (zero-padded names keep generation order).",
 )
+CLAIMED["C20"] = dict(
+    level="proof",
+    technique="deductive: loop-invariant VCs over a ghost operator trace, generated from the real evolve/advance/reset source (loop cutting + CPython proxy execution with havoc operators), z3",
+    text="evolve, advance and reset are proved for all replicate/generation counts and arbitrary (havoc) operator and logbook "
+         "implementations: per-cycle operator order, exactly-once, state hand-over by identity, time index, logging after each step, "
+         "deep-copied replicate start, start containers never passed to an operator nor reassigned. A native ring with "
+         "instrumented mutating operators is the bounded stand-in / replay route.",
+    note=TRUST_COMMON + "Assumed: copy.deepcopy returns an equal object sharing no mutable state; operators cannot reach the "
+         "start_* containers except through their arguments (frame argument).",
+)
+CLAIMED["C11"] = dict(
+    level="proof",
+    technique="deductive lemmas (z3 nonlinear real arithmetic) over the formulas obtained by executing the real mapfn/invmapfn on symbolic reals; native ring for the map classes",
+    text="Haldane/Kosambi laws (0->0, range [0,1/2), strict monotonicity, inverse pairs, Haldane composition) are proved for all "
+         "real distances from the real methods' formulas with explicit instances of the exp/log laws; IEEE special values are "
+         "checked natively. Genetic-map distance/interpolation clauses are covered by the bounded native ring.",
+    note=TRUST_COMMON + "exp/log laws are trusted instances; scipy interp1d behaviour is outside the contracts (ring only).",
+)
 for _k in ["C02", "C03", "C04", "C05", "C06", "C07", "C08", "C09", "C10", "C11", "C12", "C13", "C14", "C15", "C16",
            "C17", "C18", "C19", "C20"]:
     NA[_k] = "check not built yet in this session (work in progress; see DESIGN.md §8 for the plan)"
